@@ -735,9 +735,12 @@ def run(ctx):
         "Go language semantics of int64 +, -, += (two's complement wrap-around) — the model's wrap64",
         "latency aggregates (E2eProcessingLatencyAggregate.UnmarshalJSON / Add): only the SHAPE of the percentiles array is "
         "modelled and compared (Model/Latency, stream `latency`); the float values are not (open finding view:latency-overflow-500)",
-        "the model the driver runs is Fixes.all = /repo (F53, F54 are committed: 905ac51, 786fd8f) + fixes/F58 (`?inactive=true` "
-        "reports the errors of its per-topic fetches); until F58 is committed the defect is the open known finding "
-        "view:inactive-drops-errors (its cases are judged by the oracle and excluded from the model/impl comparison)",
+        "the model the driver runs is Fixes.tree = /repo as committed: F53 905ac51 and F54 786fd8f are in, F58 (`?inactive=true` reports "
+        "the errors of its per-topic fetches) was committed as 783e91a and REVERTED by 338c8a6 (it turned nsqlookupd's ordinary 404 "
+        "TOPIC_NOT_FOUND into permanent warnings and, with one nsqlookupd, into a 502 of the whole listing), so the switch inactiveErrs "
+        "is off (tie Tie.AdminAgg.topics_inactive_discards_errors accepts only the committed, unfixed shape). The defect is the open "
+        "known finding view:inactive-drops-errors again (inactive_drops_errors_this_tree; judged by the oracle on every generated and "
+        "replayed case); inactive_warning / inactive_view_lists are theorems about the PROPOSAL (Fixes.all), not about this tree",
         "counter_view_from_upstreams states the counter map relative to the channel map of GetNSQDStats (itself described by "
         "channels_merge over the upstreams' answers); that two different (topic, channel) pairs never share a key "
         "`topic:channel` (names without ':') is not proved and not needed for the statement as given",
